@@ -81,7 +81,7 @@ struct RefM {
 };
 static void self_check_fail(const char* what){ fprintf(stderr,"C10 reference self-check failed: %s\n",what); fflush(stderr); _exit(3); }
 static void compute(RefM& R){
-	const int n=R.n; const Mp* e[16];
+	const int n=R.n; const Mp* e[16]={nullptr};
 	for(int i=0;i<n;i++) for(int j=0;j<n;j++) e[i*n+j]=&R.a[i*4+j];
 	leib(e,n,R.det,R.Sdet);
 	for(int i=0;i<n;i++) for(int j=0;j<n;j++){ const Mp* s[9]; int k=n-1, q=0; for(int r=0;r<n;r++){ if(r==i) continue; for(int cc=0;cc<n;cc++){ if(cc==j) continue; s[q++]=&R.a[r*4+cc]; } }
@@ -97,7 +97,8 @@ static void compute(RefM& R){
 		mpfr_set_ui(s.v,0,RN); for(int j=0;j<n;j++){ mpfr_mul(t.v,R.a[j].v,R.C[j].v,RN); mpfr_add(s.v,s.v,t.v,RN); } mpfr_sub(s.v,s.v,R.det.v,RN);
 		if(fabsl(mpfr_get_ld(s.v,RN))>ldexpl(R.Sdet,-400)) self_check_fail("Laplace expansion != Leibniz sum");
 		if(!R.singular) for(int i=0;i<n;i++) for(int j=0;j<n;j++){ mpfr_set_ui(s.v,0,RN); LD m=0; for(int k=0;k<n;k++){ mpfr_mul(t.v,R.inv[i*4+k].v,R.a[k*4+j].v,RN); mpfr_add(s.v,s.v,t.v,RN); m+=fabsl(R.invL[i*4+k]*R.aL[k*4+j]); }
-			if(i==j) mpfr_sub_ui(s.v,s.v,1,RN); if(fabsl(mpfr_get_ld(s.v,RN))>ldexpl(1+m,-400)) self_check_fail("inverse * M != I"); } }
+			if(i==j) mpfr_sub_ui(s.v,s.v,1,RN);
+			if(fabsl(mpfr_get_ld(s.v,RN))>ldexpl(1+m,-400)) self_check_fail("inverse * M != I"); } }
 }
 static RefM& WS(int k){ static thread_local RefM w[4]; return w[k]; }
 static LD errOf(double got,const Mp& want){ static thread_local Mp t; mpfr_set_d(t.v,got,RN); mpfr_sub(t.v,t.v,want.v,RN); return fabsl(mpfr_get_ld(t.v,RN)); }
@@ -130,7 +131,8 @@ static const char* kbucket(LD k){ return k<10?"kappaF<1e1":k<1e2L?"kappaF<1e2":k
 
 // ---------------------------------------------------------------- domain gate + reference
 template<class T> static bool entries_in_domain(const T* x,int cols,int rows){ const LD lo=ldexpl(1.0L,-(int)Tr<T>::E), hi=ldexpl(1.0L,(int)Tr<T>::E);
-	for(int c=0;c<cols;c++) for(int r=0;r<rows;r++){ T v=x[c*4+r]; if(!isfinite_b(v)) return false; if(v!=0){ LD m=fabsl((LD)v); if(m<lo||m>hi) return false; } } return true; }
+	for(int c=0;c<cols;c++) for(int r=0;r<rows;r++){ T v=x[c*4+r]; if(!isfinite_b(v)) return false; if(v!=0){ LD m=fabsl((LD)v); if(m<lo||m>hi) return false; } }
+	return true; }
 template<class T> static void fill(RefM& R,const T* a,int n){ R.n=n; for(int i=0;i<n;i++) for(int j=0;j<n;j++) R.a[i*4+j].set((double)a[j*4+i]); }
 template<class T> static bool load(RefM& R,const T* a,int n,vf::Ctx& c,int fam=-1){
 	if(!entries_in_domain<T>(a,n,n)){ c.cls("skipped:entry-outside-magnitude-domain"); return false; }
@@ -192,7 +194,8 @@ template<class T,int N> static void k_det_tr(const In<T>& in,vf::Ctx& c){ TRT
 // det(P^) - det(AB) = sum_ij E_ij C_ij(AB) + O(E^2) (first-order term doubled; judged only when it is < |det(AB)|/64)
 template<class T,int N> static void k_det_mul(const In<T>& in,vf::Ctx& c){ TRT
 	RefM &A=WS(0),&B=WS(1),&P=WS(2),&X=WS(3);
-	if(!load<T>(A,in.a,N,c,in.fam)) return; if(!load<T>(B,in.b,N,c)) return;
+	if(!load<T>(A,in.a,N,c,in.fam)) return;
+	if(!load<T>(B,in.b,N,c)) return;
 	Mat<T,N> ga=mkm<T,N>(in.a), gb=mkm<T,N>(in.b), gp=ga*gb; T p[16]; for(int cc=0;cc<N;cc++) for(int r=0;r<N;r++) p[cc*4+r]=gp[cc][r];
 	if(!entries_in_domain<T>(p,N,N)) SKIP("product-entry-outside-magnitude-domain");
 	fill<T>(P,p,N); compute(P);
@@ -211,9 +214,12 @@ template<class T,int N> static void k_det_mul(const In<T>& in,vf::Ctx& c){ TRT
 
 // ================================================================ inverse
 template<class T,int N> static void k_inverse(const In<T>& in,vf::Ctx& c){ TRT
-	RefM& R=WS(0); if(!load<T>(R,in.a,N,c,in.fam)) return; LD rho; if(!rho_ok<T>(R,rho,c)) return;
-	LD B[16]; inv_bounds<T>(R,rho,B);
+	RefM& R=WS(0); if(!load<T>(R,in.a,N,c,in.fam)) return; LD rho;
 	Mat<T,N> m=mkm<T,N>(in.a), g=glm::inverse(m); T G[16]; outm<T,N>(g,G);
+	if(!rho_ok<T>(R,rho,c)){ // in the statement's domain but outside the formula bound's: measured only (DESIGN C10), never judged
+		T L[16]; outm<T,N>(g*m,L); LD res=0; for(int i=0;i<N;i++) for(int j=0;j<N;j++){ LD e=fabsl((LD)L[i*4+j]-(i==j?1:0)); if(e==e) res=std::max(res,e); }
+		rat(c,std::string("info(not-a-bound):")+pfx(N)+"max-residual/(u*kappaF):no-verdict-region(16*u*S_det/|det|>1/8)",res/(u*R.kappaF)); return; }
+	LD B[16]; inv_bounds<T>(R,rho,B);
 	std::string bad=judge_inverse<T>(G,R,B,false,c,pfx(N)+"inverse:entry-err/bound");
 	if(!bad.empty()){ c.fail(pfx(N)+"inverse:"+bad,showm<T>(G,N),want_inv<T>(R,false)); return; }
 	// residuals through glm's operator*: entry bounds propagated through the product + the product's own roundings
@@ -225,6 +231,7 @@ template<class T,int N> static void k_inverse(const In<T>& in,vf::Ctx& c){ TRT
 	if(nf){ c.fail(pfx(N)+"inverse(M)*M:non-finite",showm<T>(L,N),"identity"); return; }
 	rat(c,pfx(N)+"inverse(M)*M-I:err/bound",ml); rat(c,pfx(N)+"M*inverse(M)-I:err/bound",mr);
 	rat(c,std::string("info(not-a-bound):")+pfx(N)+"max-residual/(u*kappaF):"+(fam_name(in.fam)+4),std::max(resl,resr)/(u*R.kappaF));
+	{ LD q=std::max(resl,resr)/(u*R.kappaF); c.cls(q<=10?"info:residual<=10*u*kappaF":q<=1000?"info:residual<=1e3*u*kappaF":"info:residual>1e3*u*kappaF(entries-within-formula-bound)"); }
 	if(badl) c.fail(pfx(N)+"inverse(M)*M:not-identity-within-bound",showm<T>(L,N),"identity");
 	if(badr) c.fail(pfx(N)+"M*inverse(M):not-identity-within-bound",showm<T>(Rr,N),"identity");
 }
@@ -456,7 +463,9 @@ template<class T> struct Gen {
 			if(ty<2) for(int l=0;l<k;l++) M[i][l]+=cf*M[j][l]; else if(ty<4) for(int l=0;l<k;l++) M[l][i]+=cf*M[l][j]; else if(ty==4) for(int l=0;l<k;l++) std::swap(M[i][l],M[j][l]); else for(int l=0;l<k;l++) M[i][l]=-M[i][l];
 			long mx=0; for(int x=0;x<k;x++) for(int y=0;y<k;y++) mx=std::max(mx,std::labs(M[x][y])); if(mx>64){ memcpy(M,S,sizeof S); break; } }
 		if(affine){ for(int i=0;i<k;i++) M[i][k]=r.range(-8,8); M[k][k]=1; }
-		for(int i=0;i<16;i++) a[i]=0; for(int i=0;i<n;i++) for(int j=0;j<n;j++) a[j*4+i]=(T)M[i][j]; return 10; }
+		for(int i=0;i<16;i++) a[i]=0;
+		for(int i=0;i<n;i++) for(int j=0;j<n;j++) a[j*4+i]=(T)M[i][j];
+		return 10; }
 	void vec(T* v,int n){ for(int i=0;i<16;i++) v[i]=0; int m=(int)r.below(6), e=pickE(); const double lo=std::ldexp(1.0,-(int)Tr<T>::E+1);
 		for(int i=0;i<n;i++){ double x= m<2? r.uniform(-1,1): m==2? r.gauss(): m==3? (double)r.range(-8,8): m==4? (r.coin()? 0.0: r.uniform(-1,1)): 0.0; T t=(T)std::ldexp(x,e); if(std::fabs((double)t)<lo) t=0; v[i]=t; }
 		if(m==5) v[r.below(n)]= r.coin()? (T)1: (T)-1; }
@@ -481,7 +490,8 @@ template<class T> static void run_type(const char* label,Ops o,u64 n){
 				double pert= r.below(3)==0? 0.0: eps*std::exp2((double)r.range(-4,3))*(r.coin()?1.0:r.uniform(0.5,1.5));
 				if(k==0) for(int i=0;i<N;i++) m[i*4+i]=1; else if(k==1||k==2) g.orth(m,N); else if(k==3){} else g.uniform(m,N);
 				if(k<=3){ int cnt= r.coin()? 1: N*N; for(int z=0;z<cnt;z++){ int i=(int)r.below(N), j=(int)r.below(N); m[i*4+j]+=pert*(r.coin()?1:-1); } }
-				for(int i=0;i<16;i++) q[i]=0; for(int i=0;i<N;i++) for(int j=0;j<N;j++) q[j*4+i]=(T)m[i*4+j];
+				for(int i=0;i<16;i++) q[i]=0;
+				for(int i=0;i<N;i++) for(int j=0;j<N;j++) q[j*4+i]=(T)m[i*4+j];
 				T e[16]; for(int i=0;i<16;i++) e[i]=0; e[0]=(T)eps; In<T> iq=mkin<T>(q,e,N,11); RUN(query,iq); }
 		}
 #undef RUN
@@ -493,7 +503,7 @@ static void workload(){
 	vf::note("qualifier", SIMD_ALIGNED? "aligned_highp with GLM_CONFIG_SIMD enabled (SSE specialisations of float mat4 inverse/determinant and aligned mat3 inverse are exercised; classes carry the prefix simd-aligned:)":"packed (default) qualifier, pure C++ code paths");
 	vf::note("reference","MPFR 512-bit Leibniz determinant / cofactors / adjugate-over-determinant inverse from the exact input entries; second path (Laplace expansion, inverse*M=I) compared on every 64th matrix to 2^-400");
 	vf::note("info-ratios","ratio keys starting with info(not-a-bound) are measurements requested by DESIGN C10 (max residual of inverse(M)*M-I and M*inverse(M)-I divided by u*kappaF, per generator family, over the matrices that passed the domain and rho gates); they are not tolerances and may exceed 1");
-	run_type<float>("float",OPS(f),vf::N(120000,4000000));
-	run_type<double>("double",OPS(d),vf::N(120000,4000000));
+	run_type<float>("float",OPS(f),vf::N(120000,1500000));
+	run_type<double>("double",OPS(d),vf::N(120000,1500000));
 }
 VF_MAIN("C10_matrix")
